@@ -173,3 +173,92 @@ Qed.
 
 Lemma regs_schedule_batch k s : regs (schedule_batch k s) = regs s.
 Proof. unfold schedule_batch. destruct (b_done _); [reflexivity|]. destruct (existsb _ _); rr. Qed.
+
+(* ------------------------------------------------------------------ generic projections *)
+(* Any observation of the state that ignores the heap, the trace, the scoped variables, the context
+   instances and the id counter is invariant under all context / completion helpers. *)
+Section Stable1.
+  Context {R : Type} (pr : st -> R).
+  Hypothesis pr_heap : forall s h, pr (with_heap s h) = pr s.
+  Hypothesis pr_emit : forall s e, pr (emit e s) = pr s.
+  Hypothesis pr_vars : forall s v, pr (with_vars s v) = pr s.
+  Hypothesis pr_cis : forall s c, pr (with_cis s c) = pr s.
+  Hypothesis pr_top : forall s n, pr (with_top_next s n) = pr s.
+
+  Lemma pr_put h f s : pr (put h f s) = pr s. Proof. apply pr_heap. Qed.
+  Lemma pr_set_task t tk s : pr (set_task t tk s) = pr s.
+  Proof. unfold set_task. destruct (get t s); [apply pr_put|reflexivity]. Qed.
+  Lemma pr_var_set v x s : pr (var_set v x s) = pr s. Proof. apply pr_vars. Qed.
+  Lemma pr_ci_put k c s : pr (ci_put k c s) = pr s. Proof. apply pr_cis. Qed.
+
+  Ltac prr := repeat first [rewrite pr_emit | rewrite pr_put | rewrite pr_set_task | rewrite pr_var_set
+                            | rewrite pr_ci_put | rewrite pr_heap | rewrite pr_vars | rewrite pr_cis | rewrite pr_top];
+              try reflexivity.
+
+  Lemma pr_alloc p s : pr (snd (alloc p s)) = pr s. Proof. unfold alloc. cbn [snd]. prr. Qed.
+
+  Lemma pr_enter_ctx t c s : pr (enter_ctx t c s) = pr s.
+  Proof. unfold enter_ctx. destruct (get_task t s); destruct c; prr. Qed.
+  Lemma pr_pause_plain t c s : pr (pause_plain t c s) = pr s.
+  Proof. destruct c; unfold pause_plain; prr. Qed.
+  Lemma pr_exit_ctx t c s : pr (exit_ctx t c s) = pr s.
+  Proof. unfold exit_ctx. rewrite pr_pause_plain. destruct (get_task t s); prr. Qed.
+
+  Lemma pr_complete_task t o s : pr (complete_task t o s) = pr s.
+  Proof.
+    unfold complete_task. destruct (get_task t s) as [tk|]; [|reflexivity].
+    assert (H : pr (match tk_gen tk with
+                    | Some _ => fold_left (fun s c => exit_ctx t c s) (rev (tk_ctxs tk)) s
+                    | None => s end) = pr s).
+    { destruct (tk_gen tk); [|reflexivity]. apply fold_left_pres. intros. apply pr_exit_ctx. }
+    destruct (get_task t _); [|exact H]. prr. exact H.
+  Qed.
+
+  Lemma pr_accept_error t e s : pr (accept_error t e s) = pr s.
+  Proof. unfold accept_error. destruct (computed t s); [reflexivity|apply pr_complete_task]. Qed.
+
+  Lemma pr_resume1 t c s : pr (fst (resume1 t c s)) = pr s.
+  Proof. unfold resume1. destruct c as [cid f|cid|cid var v]; [destruct f| |]; cbn [fst]; t_regs; cbn [fst]; prr. Qed.
+  Lemma pr_pause1 t c s : pr (fst (pause1 t c s)) = pr s.
+  Proof. unfold pause1. destruct c as [cid f|cid|cid var v]; [destruct f| |]; cbn [fst]; t_regs; cbn [fst]; prr. Qed.
+
+  Lemma pr_resume_contexts t s : pr (resume_contexts t s) = pr s.
+  Proof.
+    unfold resume_contexts. destruct (get_task t s) as [tk|]; [|reflexivity].
+    destruct (tk_cact tk); [reflexivity|].
+    match goal with |- context [fold_left ?f ?l ?a] => pose proof (fold_left_pair_pres f pr l) as H end.
+    match goal with |- context [fold_left ?f ?l ?a] =>
+      assert (H2 : pr (fst (fold_left f l a)) = pr s) end.
+    { rewrite H; [cbn [fst]; apply pr_set_task|]. intros [s0 e0] c. cbn [fst].
+      pose proof (pr_resume1 t c s0) as Rr. destruct (resume1 t c s0). exact Rr. }
+    match goal with |- context [fold_left ?f ?l ?a] => destruct (fold_left f l a) as [s1 [e|]] end;
+      cbn [fst] in H2; rewrite ?pr_accept_error; exact H2.
+  Qed.
+
+  Lemma pr_pause_contexts t s : pr (pause_contexts t s) = pr s.
+  Proof.
+    unfold pause_contexts. destruct (get_task t s) as [tk|]; [|reflexivity].
+    destruct (negb (tk_cact tk)); [reflexivity|].
+    match goal with |- context [fold_left ?f ?l ?a] => pose proof (fold_left_pair_pres f pr l) as H end.
+    match goal with |- context [fold_left ?f ?l ?a] =>
+      assert (H2 : pr (fst (fold_left f l a)) = pr s) end.
+    { rewrite H; [cbn [fst]; apply pr_set_task|]. intros [s0 e0] c. cbn [fst].
+      pose proof (pr_pause1 t c s0) as Rr. destruct (pause1 t c s0). exact Rr. }
+    match goal with |- context [fold_left ?f ?l ?a] => destruct (fold_left f l a) as [s1 [e|]] end;
+      cbn [fst] in H2; rewrite ?pr_accept_error; exact H2.
+  Qed.
+
+  Lemma pr_complete_item h o s : pr (complete_item h o s) = pr s.
+  Proof. unfold complete_item. destruct (get h s) as [f|]; [destruct (f_out f)|]; prr. Qed.
+
+  Lemma pr_flush_body items : forall i ra s, pr (fst (flush_body items i ra s)) = pr s.
+  Proof.
+    induction items as [|h rest IH]; intros i ra s; simpl.
+    - destruct ra as [[k e]|]; reflexivity.
+    - destruct ra as [[k e]|].
+      + destruct (Z.eqb i k); [reflexivity|]. rewrite IH.
+        destruct (get h s) as [[o [ | kind idx key [v|e'|] | | ]]|]; rewrite ?pr_complete_item; reflexivity.
+      + rewrite IH.
+        destruct (get h s) as [[o [ | kind idx key [v|e'|] | | ]]|]; rewrite ?pr_complete_item; reflexivity.
+  Qed.
+End Stable1.
